@@ -359,7 +359,11 @@ func GenerateRequestContextID(txHash []byte, msgIndex int64) tmbytes.HexBytes {
 
 	binary.BigEndian.PutUint64(bz, uint64(msgIndex))
 
-	return append(txHash, bz...)
+	// build the ID in a buffer of its own: appending to the caller's slice could overwrite an ID built from it before
+	requestContextID := make([]byte, 0, len(txHash)+len(bz))
+	requestContextID = append(requestContextID, txHash...)
+
+	return append(requestContextID, bz...)
 }
 
 // SplitRequestContextID splits the given contextID to txHash and msgIndex
